@@ -138,6 +138,7 @@ def run(ctx):
             r = tlc.run_tlc("LandscapeSweep", workers=16, heap="6g", coverage=False,
                             constants=dict(MaxT=MaxT, MaxBars=MaxBars, WithShortcut=ws), invariants=inv)
             ctx.model("LandscapeSweep MaxT=%d MaxBars=%d WithShortcut=%s %s" % (MaxT, MaxBars, ws, inv), r)
+    ctx.liveness("LandscapeSweep", dict(MaxT=8, MaxBars=3 if quick else 4, WithShortcut=True), ["Termination", "DepthsAppendOnly"])
     # spec-level reproduction of the known finding: the as-coded model violates plain Correct
     r = tlc.run_tlc("LandscapeSweep", workers=4, constants=dict(MaxT=6, MaxBars=3, WithShortcut=True), invariants=["Correct"])
     ctx.model("LandscapeSweep as coded, plain Correct (expected to fail: known finding)", r, expect_violation="Correct")
